@@ -254,7 +254,7 @@ pub fn property() -> Property {
             "triples",
             "correlated triples, all laws",
             triple_strategy,
-            |t| t.pick(30_000, 1_500_000),
+            |t| t.pick(80_000, 1_500_000),
             check,
         ), crate::fuzz::replay_stream(),
         ],
